@@ -62,6 +62,31 @@ S = {
  "C09_1": ("C09", "tracer.rs apply_new_status CLONE arm: a new thread that is already registered (and running again) is marked stopped", "a non-main thread spawning while the tracer handles another event", None, ""),
  "C09_2": ("C09", "tracer.rs Tracer::resume: the re-stop before reporting the next queued signal is skipped for quiet signals", "two signals queued at once, the second one quiet", None, ""),
  "C09_3": ("C09", "tracer.rs single_step: the `pc == initial_pc` re-step removed", "a breakpoint exactly on a rep-prefixed instruction with a count above 1", None, ""),
+ # ---- second independent round (fresh agents, one more per property for 8 properties) ----
+ "C01_4": ("C01", "breakpoint.rs enable_all_breakpoints: an installed template is re-inserted into the not-installed table (statement outside the `if let Err`)", "breakpoint created before start, removed by number while running, one more arrival", None, ""),
+ "C01_5": ("C01", "step.rs step_out_frame: continue + remove_breakpoint(ret_addr) executed also when the user already has a breakpoint at the return address", "user breakpoint exactly at the return address, step out, later arrival", None, ""),
+ "C01_6": ("C01", "mod.rs continue_execution, Breakpoint arm: ecx_switch_thread(pid) became ecx_update_location()", "a breakpoint hit by a thread that is not in focus", None, ""),
+ "C05_4": ("C05", "unwind.rs DwarfUnwinder::unwind: cycle guard keyed by the return address only instead of (return address, CFA)", "recursion: two live activations reached through the same call instruction", None, ""),
+ "C05_5": ("C05", "debugee/mod.rs frame_info: return address taken from Debugee::return_addr(pid) (frame 0) instead of backtrace[k+1]", "select frame k > 0, then `frame info`", None, ""),
+ "C05_6": ("C05", "unwind.rs restore_registers_at_frame: mapping offset looked up once from frame 0 instead of per frame", "stop inside libc, select a frame of the program, read a variable", None, ""),
+ "C10_4": ("C10", "tracer.rs Tracer::resume: `.skip(1)` on the queue of threads to keep stopped (head already popped)", "two threads in signal-delivery-stop at once", None, ""),
+ "C10_5": ("C10", "tracer.rs single_step quiet branch: pop_front() instead of pop_back()", "non-quiet signal stop, stepi, quiet signal during the step", None, ""),
+ "C10_6": ("C10", "tracer.rs apply_new_status: push_back of the signal moved after group_stop_interrupt", "two threads in signal-delivery-stop at once", None, ""),
+ "C11_4": ("C11", "watchpoint.rs WatchpointRegistry::remove: last_seen_state no longer updated", "watchpoint removed, then the debuggee spawns a thread", None, ""),
+ "C11_5": ("C11", "breakpoint.rs disable_all_breakpoints: `continue` after a failed disable (breakpoint not kept for the next run)", "restart from the Exited state", None, ""),
+ "C11_6": ("C11", "process.rs from_external: args = cmd() including argv[0]", "attach, restart, program looks at its arguments", None, ""),
+ "C12_4": ("C12", "session/mod.rs send_response_raw: answered_request = the response's own seq", "a handler failing after its response once client and server counters diverged", None, ""),
+ "C12_5": ("C12", "control.rs emit_stop_reason: begin_stop_epoch + thread refresh hoisted above the exit test", "a real stop, then a natural process exit", None, ""),
+ "C12_6": ("C12", "init.rs handle_launch: `self.terminated = false` dropped", "launch, debuggee ends, launch again in the same session", None, ""),
+ "C13_4": ("C13", "session/breakpoint.rs handle_set_function_breakpoints: record keeps only the first installed location", "function breakpoint on a generic function with several instantiations", None, ""),
+ "C13_5": ("C13", "control.rs record_breakpoint_hit: hit info built before the counter is incremented", "a breakpoint with a hitCondition", None, ""),
+ "C13_6": ("C13", "control.rs literal_truthy: `!= 0` became `> 0`", "a condition evaluating to a negative number", None, ""),
+ "C15_4": ("C15", "mod.rs set_register_value: registers of proc_pid() instead of pid_on_focus()", "register write with a non-main thread in focus", None, ""),
+ "C15_5": ("C15", "serialize.rs serialize_scalar_value UTF arm: UTF-8 encoding instead of the code point", "composite setVariable with a non-ASCII char field", None, ""),
+ "C15_6": ("C15", "data.rs handle_set_variable: `item.child = None` dropped after a composite write", "list a struct, composite setVariable, list it again", None, ""),
+ "C18_4": ("C18", "registry.rs reload_plan: to_del computed from mappings.keys() instead of files.keys()", "dlopen in run N, restart, sharedlib info", None, ""),
+ "C18_5": ("C18", "breakpoint.rs enable_all_breakpoints: the drained (empty) local map is stored back after the loop", "breakpoint in a dlopen'ed library, restart", None, ""),
+ "C18_6": ("C18", "eval.rs relocation_addr: load offset of the main executable instead of the focused frame's object", "stop in a shared library, read a `static` of that library", None, ""),
 }
 
 # how each second-round seed fared on the FIRST run against the checks as they were when the seed arrived
@@ -77,6 +102,14 @@ FIRST = {
  "C13_1": "missed at first; caught after C13.set_breakpoints was added", "C13_2": "missed at first; caught after C13.registry was added", "C13_3": "missed at first; caught after C13.record_lookup was added",
  "C17_1": "UNDECIDED by the Verus unit (iterator adapters); caught after the bounded Kani validation C17.filter_pred was added", "C17_2": "not detected: how function paths are built (parser.rs) is listed as not covered", "C17_3": "not detected: `symbol <regex>` (regex + HashMap iteration) is listed as not covered",
  "C18_1": "UNDECIDED: the seed changes the outlined /proc/maps filter expression (std::path), which Verus cannot read", "C18_2": "missed at first; caught after C18.deferred was added", "C18_3": "missed at first; caught after C18.try_into_brkpt was added",
+ "C01_4": "missed at first (the loop body unit said nothing about the not-installed table for an installed template); caught after E_installed was strengthened (C01.enable_all)", "C01_5": "missed at first; caught after C01.step_temps was added", "C01_6": "missed at first; caught after focus tracking was added to C01.continue",
+ "C05_4": "missed at first; caught after the visited-set key was made generic in C05.unwind", "C05_5": "missed at first; caught after C05.frame_info was added", "C05_6": "missed at first; caught after restore_registers_at_frame was put under contract (C05.unwind)",
+ "C10_4": "missed at first; caught after the keep-stopped assertion was added to C10.resume", "C10_5": "caught by the existing unit (C10.single_step ledger)", "C10_6": "caught by the existing unit",
+ "C11_4": "missed at first; caught after C11.wp_remove was added", "C11_5": "caught by the existing unit (C11.disable_all)", "C11_6": "missed at first; caught after C11.attach_template was added",
+ "C12_4": "caught by the existing unit (C12.wire)", "C12_5": "missed at first; caught after C12.stop_tail was added", "C12_6": "missed at first; caught after C12.launch was added",
+ "C13_4": "missed at first (the loop body of the handler was outlined whole); caught after C13.record_addresses was added -- the same contract on the source-line handler failed on the unchanged tree: genuine defect, fixed in bc7cedb", "C13_5": "caught by the existing unit (C13.hit_count)", "C13_6": "caught by the existing unit (C13.condition)",
+ "C15_4": "missed at first; caught after C15.reg_focus was added", "C15_5": "see failing obligation (Kani unit C15.char_bytes added for it)", "C15_6": "missed at first; caught after C15.set_variable_cache was added",
+ "C18_4": "missed at first; caught after C18.reload_plan was added", "C18_5": "missed at first (only the loop body was under contract); caught after C18.enable_all_frame was added", "C18_6": "missed at first; caught after relocation_addr was put under contract (C18.try_into_brkpt)",
  "C16_3": "missed at first; caught after the Kani unit C16.formatter_1_87 was added", "C19_3": "missed at first; caught after C19.pieces was added", "C05_2": "missed at first; caught after C05.cfi_lookup was added",
 }
 def main():
